@@ -1,4 +1,4 @@
-HOOK_COMMITS = []
+HOOK_COMMITS = ["aec710a"]
 NOTES = ("Exit codes of ./check: 0 held, 1 violation (VIOLATION line), 2 undecided (lost anchor, unsupported construct, "
          "resource limit, vacuity guard) — an undecided run never prints VIOLATION. Genuine defects found while building: "
          "see KNOWN_FINDINGS.json (fixed: entries name the fix: commits in /repo).")
@@ -22,11 +22,17 @@ CHECKS = {
         "note": "Not covered (async driver, outside contract reach): that the driver deletes/marks exactly what GrState says and keeps its timers in step (A-C10-1, known false at two call sites by inspection), NO_LLGR handling and re-announced routes surviving the purge (Table functions, note T), families_to_drop_on_disconnect (generic iterator argument). Trusted: prelude contracts (mem::replace, is_hard_reset, R11/R12 iterator helpers), fnv hash-set model, A-C10-2.",
         "technique": "deductive verification with Verus: per-transition coverage invariant on the real GrState::process, decision-table postcondition on gr_on_disconnect",
     },
+    "C03": {
+        "text": "Kani/CBMC on the real decoders compiled inside the packet crate. BFD: Message::decode is loop-free and proved total and exact for every datagram of 0..=300 symbolic bytes (complete: accepts exactly the well-formed packets, reports the wire fields, never panics). RTR: Message::frame_length proved against its full contract (complete, loop-free: a frame is reported only if 8 <= length <= buffered bytes; 'need more bytes' only when no complete PDU is buffered; impossible lengths are errors), Message::from_bytes total on complete frames up to 40 bytes (bounded), RtrCodec::decode's framing loop with from_bytes replaced by 'any outcome' (bounded, buffers <= 24 bytes): a message only after consuming > 0 bytes, a complete PDU is consumed, skipped or rejected. BGP: PeerCodec::try_parse framing with the body parser replaced by 'any outcome' (bounded buffers <= 40 bytes, length field and extended-message flag fully symbolic). Bounded harnesses are reported separately and not counted as proved.",
+        "design_ref": "DESIGN.md §4 C03, §3.2",
+        "note": "NOT covered yet: PeerCodec::parse_message and the per-family NLRI / attribute / capability body decoders (CBMC does not terminate on parse_message even with callees stubbed: 20-minute timeouts measured; planned for the Verus lane). Trusted: Kani/CBMC, byteorder/bytes/std compiled to goto as is, allocation never fails, format! stubbed (message text irrelevant). Found and fixed F-C03-2/3 (RTR decoder stall, fix: commit 0227dc4).",
+        "technique": "Kani/CBMC harnesses on the real decoder functions: loop-free full-domain proofs (BFD, RTR framing) plus bounded stand-ins (RTR bodies, BGP framing)",
+    },
 }
 
 _NOT_BUILT = "claimed in DESIGN.md but its check is not built yet in this round; listed here until the check is quiet on the unchanged tree"
 NOT_APPLICABLE = {
-    "C01": _NOT_BUILT, "C02": _NOT_BUILT, "C03": _NOT_BUILT, "C04": _NOT_BUILT, "C05": _NOT_BUILT,
+    "C01": _NOT_BUILT, "C02": _NOT_BUILT, "C04": _NOT_BUILT, "C05": _NOT_BUILT,
     "C06": _NOT_BUILT, "C09": _NOT_BUILT, "C12": _NOT_BUILT, "C14": _NOT_BUILT,
     "C16": _NOT_BUILT, "C19": _NOT_BUILT,
     "C11": "RestartingDeferral::{new,process} use ~15 iterator adapters and the HashMap Entry API that Verus rejects (a function is verified whole or not at all) and CBMC does not terminate on hashbrown (20-min timeout at the smallest non-vacuous unwinding); no contract within reach decides it (DESIGN.md §5)",
